@@ -10,7 +10,7 @@ def run(pid, tier, seed):
     exe = vlib.build_harness("subst", ["subst.cxx"])
     q = tier == "quick"
     np_, nv = 3, 2
-    depth = 4 if q else 5
+    depth = 5
     consts = {"NParam": np_, "NValue": nv, "Depth": depth, "MaxSubst": 2, "Record": "TRUE"}
     tdir = vlib.trace_dir()
     os.makedirs(tdir, exist_ok=True)
